@@ -20,7 +20,7 @@
      asymm_is_offdiag_block_cart (in AssembledOverlapP.v)  *)
 From Coq Require Import List Arith Lia Bool.
 From GB Require Import Base.Field Base.FNum Base.Tables Base.Blocks Model.Shell Model.MomentInt
-  Model.Spherical Model.Assembly Model.Overlap Model.OneBody
+  Model.Spherical Model.Assembly Model.Overlap Model.DiffOp Model.OneBody
   Proofs.BlockP Proofs.CoreBlockP Proofs.CoreDiffP Proofs.AssemblyP Proofs.OverlapP Proofs.BlockMatP.
 Import ListNotations.
 
@@ -33,6 +33,17 @@ Qed.
 
 Lemma idx_lt m c M L : m < M -> c < L -> m * L + c < M * L.
 Proof. intros Hm Hc. nia. Qed.
+
+Lemma map4_shape {A B} (f : A -> B) n1 n2 n3 n4 (x : list (list (list (list A)))) :
+  shape4 n1 n2 n3 n4 x -> shape4 n1 n2 n3 n4 (Model.DiffOp.map4 f x).
+Proof.
+  intros [X1 X2]. unfold Model.DiffOp.map4. split; [now rewrite map_length|]. intros i1 H1.
+  destruct (X2 i1 H1) as [Xa Xb].
+  rewrite (nth_map_d _ x i1 []) by lia. split; [now rewrite map_length|]. intros i2 H2.
+  destruct (Xb i2 H2) as [Xc Xd].
+  rewrite (nth_map_d _ _ i2 []) by lia. split; [now rewrite map_length|]. intros i3 H3.
+  rewrite (nth_map_d _ _ i3 []) by lia. rewrite map_length. now apply Xd.
+Qed.
 
 Definition zipc {X Y Z} (f : X -> Y -> Z) (xs : list X) (ys : list Y) : list Z :=
   map (fun '(x, y) => f x y) (combine xs ys).
